@@ -1584,16 +1584,17 @@ impl TypeLayout {
             (Self::List(ListType::Open(t1)), Self::List(ListType::Open(t2)), _) => {
                 t1.eq_complex(t2, flags)
             }
-            (Self::List(ListType::Mixed(t1)), Self::List(ListType::Open(t2)), _)
-            | (Self::List(ListType::Open(t2)), Self::List(ListType::Mixed(t1)), _) => {
+            // keep the expected element type on the left: the comparison is not symmetric for
+            // optionals (`int?` accepts an `int`, `int` does not accept an `int?`)
+            (Self::List(ListType::Mixed(expected)), Self::List(ListType::Open(given)), _) => {
                 let flags = Box::new(flags.deref());
 
-                for ty in t1 {
-                    if !t2.eq_complex(ty, *flags) {
-                        return false;
-                    }
-                }
-                true
+                expected.iter().all(|ty| ty.eq_complex(given, *flags))
+            }
+            (Self::List(ListType::Open(expected)), Self::List(ListType::Mixed(given)), _) => {
+                let flags = Box::new(flags.deref());
+
+                given.iter().all(|ty| expected.eq_complex(ty, *flags))
             }
             (Self::Optional(None), ..) if flags.force_rhs_to_be_unwrapped_lhs => true,
             (Self::Optional(None), Self::Optional(Some(_)), _)
